@@ -41,14 +41,15 @@ def content(kind, rnd):
         return rnd.choice([b"\xff\xfe\xfa .a{color:#777777}\n", ".a{color:#777}".encode("utf-16"), b".a{color:#777777} /* caf\xc3\xa9 \xe2\x82",
                            b".b{color:#5c5c5c;background-color:#ffffff}\n/* \xf0\x9f\x8d"])
     if kind == "unserialisable":
-        # a declaration tinycss2 cannot parse next to a colour that needs fixing in EVERY setting (#777 without --premium,
-        # #5c5c5c with it; explicit white background): re-serialising the modified rule fails
-        return (b".z{*zoom:1; color:#777777; background-color:#ffffff} .z2{*zoom:1; color:#5c5c5c; background-color:#ffffff} "
+        # a conditional block that ends in a selector without a block (invalid CSS) after a colour that needs fixing in EVERY
+        # setting (#777 without --premium, #5c5c5c with it; explicit white background): re-serialising the block fails.
+        # (Until fix b8275e3 a star hack - "*zoom: 1" - in a modified rule did the same; that is now carried through, see F11.)
+        return (b"@media screen{.z{color:#777777; background-color:#ffffff} .z2{color:#5c5c5c; background-color:#ffffff} .junk } "
                 b".y{color:#000}\n")
     if kind == "faultDefines":
-        # custom properties are collected, then serialisation of the modified rule fails (late fault)
-        return (b":root{--bg:#000000; --c:#777777; --t:#767676} .z{*zoom:1; color:#777777; background-color:#ffffff} "
-                b".z2{*zoom:1; color:#5c5c5c; background-color:#ffffff}\n")
+        # custom properties are collected, then serialisation of the processed conditional block fails (late fault)
+        return (b":root{--bg:#000000; --c:#777777; --t:#767676} @media screen{.z{color:#777777; background-color:#ffffff} "
+                b".z2{color:#5c5c5c; background-color:#ffffff} .junk }\n")
     if kind == "unencodable":
         # valid UTF-8, parses and serialises; the escape denotes a lone surrogate, which the output encoding refuses
         return b'.s{color:#777777;background-color:#ffffff;content:"\\d800"} .s2{color:#5c5c5c;background-color:#ffffff}\n'
@@ -65,6 +66,8 @@ def materialise(tree, root, rnd):
     rnd.shuffle(stems)
     stems += ["f%02d" % j for j in range(len(tree))]       # (large trees: more slots than hand-picked names)
     same_name = len(tree) <= 4 and rnd.random() < 0.3       # every file has the SAME name, each in a directory of its own
+    family = (not same_name) and len(tree) <= 4 and rnd.random() < 0.3      # one directory, names that extend one another
+    fam_stems = rnd.sample(["theme", "theme2", "theme.min", "themeA", "theme-dark", "theme_2", "site", "site.min"], 4)
     dirs = ["", "sub", "sub/deep", "other", ".hidden", ".config/styles", "sub/.cache"]      # (dot-directories are directories)
     paths = {}
     for s, kind in enumerate(tree, start=1):
@@ -72,6 +75,8 @@ def materialise(tree, root, rnd):
             continue
         d = rnd.choice(dirs)
         stem = stems[s]
+        if family:
+            d, stem = "pack", fam_stems[(s - 1) % len(fam_stems)]
         if same_name:
             d, stem = dirs[(s - 1) % len(dirs)], stems[0]
         elif rnd.random() < 0.12:
